@@ -72,7 +72,7 @@ macro_rules! lev {
     ($($name:ident: $na:literal, $ne:literal;)*) => { $(
         #[kani::proof]
         #[kani::unwind(10)]
-        fn $name() { body::<$na, $ne, 4, 8>(); }
+        pub(crate) fn $name() { body::<$na, $ne, 4, 8>(); }
     )* };
 }
 
@@ -137,7 +137,7 @@ pub(crate) fn native_confirm(n: usize, m: usize) -> Option<(Vec<u16>, Vec<u16>, 
 /// vacuity twin: must FAIL
 #[kani::proof]
 #[kani::unwind(8)]
-fn c31_twin_must_fail() {
+pub(crate) fn c31_twin_must_fail() {
     let act: [u16; 2] = kani::any();
     let exp: [u16; 2] = kani::any();
     let (d, ops) = Recovery::levenshtein_distance(&act[..2], &exp[..2]);
